@@ -608,7 +608,7 @@ func (fr *frame) instr(instr ssa.Instruction, st *State) bool {
 			res = append(res, fr.coerce(fr.val(r), sortOf(r.Type())))
 		}
 		fr.retOrd++
-		fr.rets = append(fr.rets, retRec{cond: st.reach, st: st, results: res, idx: fr.retOrd})
+		fr.rets = append(fr.rets, retRec{cond: st.reach, st: st, results: res, idx: fr.retOrd, blk: fr.curBlock, pos: fr.curIdx})
 		return false
 	case *ssa.Panic:
 		if fr.enc.safeAll {
